@@ -64,3 +64,20 @@ def bbox_window(mask):
     cols = np.flatnonzero((mask > 0).any(axis=0))
     sel[rows[0]:rows[-1] + 1, cols[0]:cols[-1] + 1] = True
     return sel
+
+
+def recentre(arr, shape):
+    """``arr`` on a frame of another ``shape`` with the origin samples (index floor(n/2)) aligned: zero-padded where the
+    new frame is larger, cropped where it is smaller (how planes of different array sizes line up in one chain)."""
+    arr = np.asarray(arr)
+    out = np.zeros(tuple(shape), dtype=arr.dtype)
+    sl_src, sl_dst = [], []
+    for n_src, n_dst in zip(arr.shape, shape):
+        shift = n_dst // 2 - n_src // 2              # dst index = src index + shift
+        lo = max(0, -shift)
+        hi = min(n_src, n_dst - shift)
+        sl_src.append(slice(lo, hi))
+        sl_dst.append(slice(lo + shift, hi + shift))
+    if all(s.stop > s.start for s in sl_src):
+        out[tuple(sl_dst)] = arr[tuple(sl_src)]
+    return out
